@@ -118,7 +118,10 @@ def match_known(ctx, prog, outcome):
 
 def judge(ctx, prog, r, stats):
     """r: result of the Coq evaluation (or None if the text was unusable).  Returns None if fine, else (outcome, detail)."""
-    start = 1 if prog.kind == 'propagate' else 0       # row 0 of a combinational block: VSem has already settled, py4hw has not yet propagated
+    if r is not None and 'eval_error' in r:
+        return ('notvalid', {'what': 'the emitted text (or the source term) cannot be evaluated in Coq: evaluation fails or does not terminate',
+                             'coq': r['eval_error']})
+    start = 0                                           # row 0: after construction (Simulator.__init__ has propagated once) / power-up + settle
     # tie: PySem (Python's own semantics) == the real simulator, wherever both are defined
     if r is not None and prog.trace:
         pyrows = r['py'][0]
@@ -172,6 +175,23 @@ def replay_record(prog, outcome, det):
     return rec
 
 
+def safe_evaluate(ctx, tag, progs, depth=0):
+    """one Coq case file for the whole batch; if that evaluation fails or does not terminate (a mistranslated text can make VSem
+    shift by an astronomically large amount), bisect down to the culprit programs, which get the verdict 'eval'"""
+    try:
+        return L.evaluate(tag, progs, timeout=(300 if ctx.quick else 900) if depth == 0 else 120)
+    except RuntimeError as ex:
+        if len(progs) == 1:
+            ctx.log('Coq evaluation failed for %s: %s' % (progs[0].name, str(ex)[-300:]))
+            return {0: {'eval_error': str(ex)[-600:]}}
+        h = len(progs) // 2
+        a = safe_evaluate(ctx, tag + 'a', progs[:h], depth + 1)
+        b = safe_evaluate(ctx, tag + 'b', progs[h:], depth + 1)
+        out = dict(a)
+        for k, v in b.items(): out[h + k] = v
+        return out
+
+
 def process(ctx, progs, tag, stats):
     rng = ctx.rng
     nsteps = 25 if ctx.quick else 40
@@ -181,7 +201,7 @@ def process(ctx, progs, tag, stats):
         p.run_real()
     withtext = [p for p in progs if p.mods is not None]
     rest = [p for p in progs if p.mods is None]
-    res = L.evaluate(tag, withtext) if withtext else {}
+    res = safe_evaluate(ctx, tag, withtext) if withtext else {}
     res2 = L.evaluate_source_only(tag + '_src', rest) if rest else {}
     n_bad = 0
     for p in progs:
@@ -198,19 +218,41 @@ def process(ctx, progs, tag, stats):
                             'rows(out ports ++ attrs)': p.trace[:3], 'tv_block': True, 'in_domain_rows': len(r['dom'][0]) - 1})
             continue
         outcome, det = verdict
+        if outcome == 'notvalid' and 'first_differing_row' not in det and 'coq' not in det and \
+                'BoolOp with more than 3 operands' in p.dump.features and not p.dump.unsupported:
+            # documented incompleteness of the validator (association of an n-ary and/or, n > 3): only the differential speaks
+            stats['validator incomplete (n-ary and/or), differential ok'] += 1
+            continue
         kf = match_known(ctx, p, outcome) if outcome != 'tie' and outcome != 'differs' else None
         if kf is not None:
             stats['known ' + kf['id']] += 1
             ctx.known_finding(kf['id'], '%s — %s [first seen on %s: %s]' % (kf['id'], kf['text'][:160], p.name, det['what'][:80]))
             continue
         n_bad += 1
-        if n_bad <= 5:
-            ctx.violation(replay_record(p, outcome, det), found_input=('first_differing_row' in det or outcome in ('parse', 'elab')))
+        # kept until the end of the run: discrepancies with a concrete differing cycle are reported first
+        ctx.notes.setdefault('_pending', []).append((0 if 'first_differing_row' in det else 1 if outcome in ('parse', 'elab') else 2,
+                                                     len(p.source_text), replay_record(p, outcome, det)))
     return n_bad
+
+
+def flush_violations(ctx, limit=6):
+    pend = ctx.notes.pop('_pending', [])
+    pend.sort(key=lambda t: (t[0], t[1]))
+    for rank, _, rec in pend[:limit]:
+        ctx.violation(rec, found_input=rank < 2)
+    if len(pend) > limit:
+        ctx.notes['violations_not_written_out'] = len(pend) - limit
 
 
 # ------------------------------------------------------------------ run
 def run(ctx):
+    try:
+        _run(ctx)
+    finally:
+        flush_violations(ctx)
+
+
+def _run(ctx):
     ctx.level = 'translation_validation'
     ctx.cov['programs'] = 0
     ctx.cov['disagreements_checked'] = 0
